@@ -297,6 +297,7 @@ fn op_kind(o: &Op) -> u8 {
         Op::SetPing { .. } => 120,
         Op::SetPingresp { ms } => 162 + (*ms != 0) as u8,
         Op::SetAuto { which, on } => 164 + 2 * which + *on as u8,
+        Op::Coalesce { qos, .. } => 172 + qos,
         Op::Advance { .. } => 121,
         Op::Close { partial } => 122 + (*partial != 0) as u8,
         Op::Crash => 124,
@@ -416,6 +417,18 @@ fn tune(prop: &str, c: &mut Cfg, p: &mut GenProfile, r: &mut Rng) {
             let l = [None, Some(12u32), Some(16), Some(18), Some(19), Some(20), Some(22), Some(24), Some(30), Some(40)];
             c.c_mps = *r.pick(&l);
             c.s_mps = *r.pick(&l);
+            if r.chance(1, 4) {
+                // around the 127/128 Remaining Length boundary: three more bytes of property cost four
+                let b = [Some(129u32), Some(130), Some(131), Some(132), Some(133)];
+                c.c_mps = *r.pick(&b);
+                c.s_mps = *r.pick(&b);
+                if r.chance(1, 2) {
+                    c.auto_map = true;
+                    c.auto_replace = false;
+                    c.c_tam = Some(*r.pick(&[1u16, 2, 3]));
+                    c.s_tam = Some(*r.pick(&[1u16, 2, 3]));
+                }
+            }
             p.w_pub = 45;
             p.w_peerpub = 25;
             p.w_disc = 3;
@@ -477,6 +490,23 @@ fn alloc_outcome(c: &crate::alloc::ACase) -> Outcome {
 }
 
 pub fn generate(prop: &str, rng: &mut Rng, tier: Tier, run: u64) -> (Case, Outcome) {
+    let (c, o) = generate_inner(prop, rng, tier, run);
+    (c, settle(prop, o))
+}
+
+/// A run may carry a deferred finding next to (or instead of) the one that ended it: the
+/// verdict is the one that concerns the property under check.
+fn settle(prop: &str, mut o: Outcome) -> Outcome {
+    if let Some(alt) = o.alt.take() {
+        let own = o.viol.as_ref().map_or(false, |v| v.props.iter().any(|p| *p == prop));
+        if !own && (o.viol.is_none() || alt.props.iter().any(|p| *p == prop)) {
+            o.viol = Some(alt);
+        }
+    }
+    o
+}
+
+fn generate_inner(prop: &str, rng: &mut Rng, tier: Tier, run: u64) -> (Case, Outcome) {
     if prop == "C20" {
         let et = crate::alloc::enum_total();
         if run < et {
@@ -1138,14 +1168,7 @@ fn merge_o(o: &mut Outcome, f: &Outcome) {
 }
 
 pub fn replay(prop: &str, case: &Case) -> Outcome {
-    let mut o = replay_inner(case);
-    if let Some(alt) = o.alt.take() {
-        let own = o.viol.as_ref().map_or(false, |v| v.props.iter().any(|p| *p == prop));
-        if !own && (o.viol.is_none() || alt.props.iter().any(|p| *p == prop)) {
-            o.viol = Some(alt);
-        }
-    }
-    o
+    settle(prop, replay_inner(case))
 }
 
 fn replay_inner(case: &Case) -> Outcome {
